@@ -284,7 +284,7 @@ def check_c15(pid, tier, t0, replay_key):
     obl += o
     samples += s
     st.update(s2)
-    for fn in (lambda: e4.rule_x5(P, tables), lambda: e4.rule_x6(P), lambda: e4.rule_x7(P, tables), lambda: e4.rule_x8(P, tables)):
+    for fn in (lambda: e4.rule_x5(P, tables), lambda: e4.rule_x6(P), lambda: e4.rule_x7(P, tables), lambda: e4.rule_x8(P, tables), lambda: e4.rule_x9(P, reach)):
         f, o, s2 = fn()
         findings += f
         obl += o
@@ -309,7 +309,8 @@ def check_c15(pid, tier, t0, replay_key):
         "classified; (X5) the audited component-graph work-list loops run only inside GlyphOrderWork after the acyclicity check; (X6) include "
         "cycles/too-deep includes are rejected before the recursive tree assembly; (X7) unsafe blocks are the audited six; (X8) after the source "
         "object is constructed the main thread (Workload::new, Source::create_*_work, handle_success) never reads or parses input files except on "
-        "the restore path - input is interpreted inside jobs, under catch_unwind; (E3) no tracked error is "
+        "the restore path - input is interpreted inside jobs, under catch_unwind; (X9) threads and rayon scopes are created only in "
+        "Workload::exec, so no work runs outside the scheduler's containment; (E3) no tracked error is "
         "dropped. NOT decided: progress of the FEA/plist parser loops (token-set reasoning), memory and time bounds (e.g. exponential include or "
         "class-product expansion), panics on the main thread other than todo!/unimplemented!.")
     rule_text = "one obligation per caller / exit reference / stub function / recursive SCC / graph walk / guard clause / unsafe site / discard-site group"
